@@ -53,6 +53,7 @@ class Module(object):
         self.assigns = {}
         self.all_names = None
         self.is_pkg = path.endswith("__init__.py")
+        self.renamed_locals = normalise_locals(self.tree, rel)
         self._collect(self.tree.body)
         self._pin_map()
         # parent links & enclosing-function map
@@ -540,3 +541,103 @@ def pall(src, root, env=None):
         if e is not None:
             out.append((n, e))
     return out
+
+
+
+# --------------------------------------------------------------------------
+# Alpha-normalisation of local variable names towards the reviewed tree
+# --------------------------------------------------------------------------
+# Many rules anchor on the names of locals as they are on the reviewed tree
+# (loop variables, accumulators).  Renaming a local is behaviour preserving, so
+# before any analysis each function's locals are renamed back to the reference
+# names: both name lists are taken in order of first binding; a name that is in
+# the function but not in the reference list is a *renamed* local and is mapped
+# to the reference name that occupies the same position and has disappeared.
+# Names present in both lists keep themselves (so reordering statements maps
+# nothing), and nothing is renamed when the lists differ in length or the
+# target name already occurs in the function (no capture).  This is an
+# alpha-conversion of the analysed program, nothing else.
+
+def iter_toplevel_functions(tree):
+    for n in tree.body:
+        if isinstance(n, (ast.FunctionDef, ast.AsyncFunctionDef)):
+            yield n.name, n
+        elif isinstance(n, ast.ClassDef):
+            for f in n.body:
+                if isinstance(f, (ast.FunctionDef, ast.AsyncFunctionDef)):
+                    yield "%s.%s" % (n.name, f.name), f
+
+
+def binding_order(fn):
+    """purely local names of fn (nested scopes included) in order of first binding"""
+    params, banned = set(), set()
+    for f in ast.walk(fn):
+        if isinstance(f, (ast.FunctionDef, ast.AsyncFunctionDef, ast.Lambda)):
+            a = f.args
+            for x in a.posonlyargs + a.args + a.kwonlyargs:
+                params.add(x.arg)
+            if a.vararg:
+                params.add(a.vararg.arg)
+            if a.kwarg:
+                params.add(a.kwarg.arg)
+        if isinstance(f, (ast.Global, ast.Nonlocal)):
+            banned.update(f.names)
+        if isinstance(f, (ast.FunctionDef, ast.AsyncFunctionDef, ast.ClassDef)) and f is not fn:
+            banned.add(f.name)
+        if isinstance(f, ast.ExceptHandler) and f.name:
+            banned.add(f.name)
+        if isinstance(f, (ast.Import, ast.ImportFrom)):
+            for al in f.names:
+                banned.add((al.asname or al.name).split(".")[0])
+    stores = sorted((n for n in ast.walk(fn) if isinstance(n, ast.Name) and isinstance(n.ctx, (ast.Store, ast.Del))), key=lambda n: (n.lineno, n.col_offset))
+    out = []
+    for n in stores:
+        if n.id in params or n.id in banned or n.id in out:
+            continue
+        out.append(n.id)
+    return out
+
+
+REFERENCE_LOCALS = None
+
+
+def _reference_locals():
+    global REFERENCE_LOCALS
+    if REFERENCE_LOCALS is None:
+        import json
+
+        p = os.path.join(os.path.dirname(os.path.abspath(__file__)), "reference_locals.json")
+        try:
+            with open(p) as f:
+                REFERENCE_LOCALS = json.load(f)
+        except (IOError, OSError, ValueError):
+            REFERENCE_LOCALS = {}
+    return REFERENCE_LOCALS
+
+
+def normalise_locals(tree, rel):
+    ref = _reference_locals().get(rel)
+    if not ref:
+        return {}
+    done = {}
+    for qual, fn in iter_toplevel_functions(tree):
+        want = ref.get(qual)
+        if not want:
+            continue
+        have = binding_order(fn)
+        if have == want or len(have) != len(want):
+            continue
+        mapping = {}
+        for a, b in zip(have, want):
+            if a != b and a not in want and b not in have:
+                mapping[a] = b
+        if not mapping:
+            continue
+        used = set(n.id for n in ast.walk(fn) if isinstance(n, ast.Name)) | set(a.arg for f in ast.walk(fn) if isinstance(f, (ast.FunctionDef, ast.AsyncFunctionDef, ast.Lambda)) for a in f.args.posonlyargs + f.args.args + f.args.kwonlyargs)
+        if any(b in used for b in mapping.values()):
+            continue
+        for n in ast.walk(fn):
+            if isinstance(n, ast.Name) and n.id in mapping:
+                n.id = mapping[n.id]
+        done[qual] = mapping
+    return done
